@@ -305,7 +305,7 @@ def gen_shapes(tier, seed):
     if tier == "quick":
         out = shapes[:25] + fw[:20] + dep[:25] + two[:30] + [dict(n=n, L=3, values=True, methods=[]), dict(n=n, L=3, wide=1200, methods=[])]
     else:
-        out = shapes[:900] + fw[:700] + dep[:900] + two[:1200] + [dict(n=n, L=3, values=True, methods=[]), dict(n=n, L=3, wide=2600, methods=[])]
+        out = shapes[:700] + fw[:550] + dep[:700] + two[:900] + [dict(n=n, L=3, values=True, methods=[]), dict(n=n, L=3, wide=2600, methods=[])]
     return out, total, True
 
 
